@@ -1,13 +1,15 @@
 #!/bin/bash
-# tools/sweep.sh <tier> <seeds...> : every registered check on the unchanged tree; one summary line per run
+# tools/sweep.sh <tier> <seeds...> : every registered check on the unchanged tree; one summary line per run.
+# Works from the directory it lives in (so it can run inside a `vp run` snapshot); evidence is not touched.
 TIER=$1; shift
-OUT=/tmp/sweep-$TIER.log
+ROOT=$(cd "$(dirname "$(readlink -f "$0")")/.." && pwd)
+OUT=$ROOT/sweep-$TIER.log
 : > $OUT
 for s in "$@"; do
   for i in $(seq -w 1 20); do
-    out=$(cd /verif && VERIF_SEED=$s VERIF_NO_EVIDENCE=1 ./check C$i $TIER 2>&1); rc=$?
+    out=$(cd $ROOT && VERIF_SEED=$s VERIF_NO_EVIDENCE=1 ./check C$i $TIER 2>&1); rc=$?
     echo "seed=$s C$i rc=$rc $(echo "$out" | grep -E "^C$i " | cut -c1-160)" >> $OUT
-    if [ $rc -ne 0 ]; then echo "$out" | grep -E "VIOLATION|INCONCL|BUILD" | cut -c1-400 >> $OUT; fi
+    if [ $rc -ne 0 ]; then echo "$out" | grep -E "VIOLATION|INCONCL|BUILD|detail" | cut -c1-600 >> $OUT; fi
   done
 done
 echo sweep-done >> $OUT
